@@ -17,8 +17,28 @@
     ctx     std | wrap (optional, default std): the context is of a standard library type / of a user-defined type
             with its own Done channel.  The logic machine does not depend on it (the runtime observations do).
   impl:  class=<c> pkt=<fields|-> first=<hex|-|na> verbatim=<b|na> resends=<ok|…|na> prompt=<b|na>
-         silent=<b|na> goroutines=<b> fds=<b>
-         (observations of the real call as classes and booleans, never raw timings)
+         silent=<b|na> goroutines=<b> fds=<b> t0=0 arr=<ms,ms,…|-|na> end=<ms|na> d=<retry ms>
+         (observations of the real call as classes and booleans; the last four tokens are the raw numbers
+          behind `resends`: arrival instants of the request datagrams at the peer and the instant Exchange
+          had returned by, in whole milliseconds since the instant just before Exchange was called - a clock
+          whose origin is not after the model's t0 - and the interval)
+
+  Timed layer.  The number and the instants of the retransmissions are not determined by the scenario
+  (they depend on the scheduler), so the model side does not predict them: it echoes `arr` and `end` and
+  evaluates the bounds the timed machine `RV.Exchange.Timed` PROVES for every well-timed run
+  (Props/C08: `resend_not_early`, `resend_count_le`, `no_resend_without_retry_timed`, tied to exactly
+  these two predicates by `observation_within_model_bounds`) on the numbers:
+      obsNotEarly d tol arr      the i-th datagram (0-based) is not seen before i·d - tol
+      obsCountOk d tol end arr   |arr| ≤ 1 + (end + tol) / d      (d = max(Retry, 0); x / 0 = 0)
+  Only these UPPER bounds are asserted.  The lower bound (`resend_count_ge_under_latency`) is conditional
+  on a latency hypothesis that a loaded machine does not meet, so it is not asserted on numbers (the
+  harness's own, very loose `toofew` class stays as it was).
+  Allowance `c08TolMs`: the argument needs none - a datagram is seen after it was written, a write
+  follows its tick, a tick is never delivered before it is due, the clock's origin precedes the ticker's
+  creation, Exchange returns after its last successful write, and all instants are rounded DOWN to whole
+  milliseconds while i·d is a whole number of them; lateness of any kind only helps.  One millisecond is
+  kept as a margin for the printing.  (The harness measures a scenario again, up to three times, when these
+  predicates fail, as it does for its other timing clauses: `c08TimedBad` in c08.go, same formula.)
 
   The model side derives the abstract event sequence of the scenario (the number of ticks is timing
   dependent, so a representative number is used and only tick-independent observations are compared),
@@ -28,9 +48,28 @@
   implementation's observations.
 -/
 import RV.Driver.C05
+import RV.Model.ClientTimed
 namespace RV.Driver
 open RV.MD5 (md5)
 open RV.Client RV.Exchange
+
+/-- allowance, in milliseconds, for the model's bounds on the raw numbers (see the head of the file;
+    the same constant as `c08TolMs` in harness/cmd/vh/c08.go) -/
+def c08TolMs : Nat := 1
+
+/-- `arr` token: `na` = the peer cannot report, `-` = it saw nothing, else instants in milliseconds -/
+def parseArr (s : String) : Option (Option (List Nat)) :=
+  if s == "na" then some none
+  else if s == "-" then some (some [])
+  else (s.splitOn ",").mapM parseNat |>.map some
+
+/-- `end` token: `na` or milliseconds -/
+def parseEnd (s : String) : Option (Option Nat) :=
+  if s == "na" then some none else (parseNat s).map some
+
+def nondecreasing : List Nat → Bool
+  | a :: b :: rest => decide (a ≤ b) && nondecreasing (b :: rest)
+  | _ => true
 
 inductive PeerKind where
   | silent | closed | flood
@@ -180,9 +219,26 @@ def c08 (op : String) (args : List String) (impl : String) : Verdict :=
             | [] => "-"
           let verbatim := if blind then "na" else boolStr (s.sent.all (fun x => some x == s.sent.head?))
           let resends := if blind then "na" else "ok"
+          -- the timed layer: the raw numbers are echoed (not predicted), the interval and the clock are the model's
+          let arrTok := tok impl "arr"
+          let endTok := tok impl "end"
           let model := s!"class={cls} pkt={pkt} first={first} verbatim={verbatim} resends={resends} " ++
             s!"prompt={if isCtx then "true" else "na"} silent={if blind then "na" else boolStr true} " ++
-            s!"goroutines={boolStr s.connClosed} fds={boolStr s.connClosed}"
+            s!"goroutines={boolStr s.connClosed} fds={boolStr s.connClosed} " ++
+            s!"t0=0 arr={arrTok} end={endTok} d={retry}"
+          let d := Timed.period P
+          let arrP := parseArr arrTok
+          let endP := parseEnd endTok
+          let timedWellFormed := match arrP, endP with
+            | some a, some _ => (match a with | some l => nondecreasing l | none => true)
+            | _, _ => false
+          -- the model's bounds on the numbers (true when the peer could not report)
+          let notEarly := match arrP with
+            | some (some l) => Timed.obsNotEarly d c08TolMs l
+            | _ => true
+          let countOk := match arrP, endP with
+            | some (some l), some (some fin) => Timed.obsCountOk d c08TolMs fin l
+            | _, _ => true
           -- the property's clauses on the implementation's observations
           let icls := tok impl "class"
           let allowed := ["reply", "ctx-canceled", "ctx-deadline", "net-error", "dial-error", "parse-error",
@@ -206,6 +262,11 @@ def c08 (op : String) (args : List String) (impl : String) : Verdict :=
              ("resend_is_byte_identical", okTok "verbatim"),
              ("no_resend_when_retry_not_positive", decide (retry > 0) || tok impl "resends" == "ok" || tok impl "resends" == "na"),
              ("resend_count_matches_interval", decide (retry ≤ 0) || tok impl "resends" == "ok" || tok impl "resends" == "na"),
+             -- the same two clauses and `resend_not_early`, as the timed machine's theorems evaluated on the raw numbers
+             ("timed_observation_wellformed", timedWellFormed),
+             ("no_resend_when_retry_not_positive", decide (retry > 0) || countOk),
+             ("resend_not_early", notEarly),
+             ("resend_count_matches_interval", decide (retry ≤ 0) || countOk),
              ("nothing_sent_after_return", okTok "silent"),
              ("no_goroutine_survives", okTok "goroutines"),
              ("socket_closed", okTok "fds")]
